@@ -411,6 +411,7 @@ fn run_steps(session: &Session, r: &Replica, want: &Want, tree: Option<Element<S
     let lazy = r.role.contains("lazy-");
     let restarting = r.role.contains("restarting-");
     let probing = r.role.contains("probing-");
+    let revopts = r.role.contains("revopts-");
     for (k, st) in r.steps[from..to].iter().enumerate() {
         let last = from + k + 1 == r.steps.len();
         if restarting {
@@ -464,8 +465,15 @@ fn run_steps(session: &Session, r: &Replica, want: &Want, tree: Option<Element<S
                 let mut renders = vec![];
                 let mut renders2 = vec![];
                 if want.renders {
-                    for o in &session.opts {
-                        renders.push(t.to_serde_struct(&o.options()));
+                    if revopts {
+                        // the same renderings, requested in the opposite order (what was rendered before is state, too)
+                        let mut tmp: Vec<String> = session.opts.iter().rev().map(|o| t.to_serde_struct(&o.options())).collect();
+                        tmp.reverse();
+                        renders = tmp;
+                    } else {
+                        for o in &session.opts {
+                            renders.push(t.to_serde_struct(&o.options()));
+                        }
                     }
                     if want.render_twice {
                         for o in &session.opts {
